@@ -674,9 +674,10 @@ package machine
 //@   ensures queue: old(QueueInv(m)) ==> QueueInv(m)
 
 //@ func (t *Transition) emitHandler(from, to string, isFinal, isEnter bool, event string, args A) (r Result)
-//@   props C05
+//@   props C05 C08
 //@   requires nn: t.Machine != nil
 //@   assigns Transition.latestHandlerToState, Transition.latestHandlerIsEnter, Transition.latestHandlerIsFinal, Machine.panicCaught, Machine.queue, Machine.queueLen, Machine.queueTicksPending, Machine.logEntries, ghost.faults, ghost.vetoes, ghost.finalsDone
+//@   ensures latest: t.latestHandlerToState == to
 //@   ensures res: r == Executed || r == Canceled
 //@   ensures faults: (isFinal && r == Canceled) ? ghost.faults == old(ghost.faults) + 1 : ghost.faults == old(ghost.faults)
 //@   ensures vetoes: (!isFinal && r == Canceled) ? ghost.vetoes == old(ghost.vetoes) + 1 : ghost.vetoes == old(ghost.vetoes)
